@@ -102,6 +102,157 @@ def _dynamic_params(dyn, g):
     g.define('searchCut', 'String', '"i * dynamic_params_depth > MAX_PARAM_SEARCHES"',
              'jedi/inference/dynamic_params.py:_search_function_arguments (i = 0; per call site: i += 1; if <cut>: return)')
 
+# --------------------------------------------------------------------------- the memo layer
+
+# decorators that remember the value their function returned, as it is
+PLAIN_CACHES = {'jedi/inference/cache.py': ['_memoize_default', 'inference_state_function_cache',
+                                             'inference_state_method_cache',
+                                             'inference_state_as_method_param_cache'],
+                'jedi/cache.py': ['memoize_method', 'time_cache']}
+# ... that are written for generator functions and consume / replay them themselves
+GENERATOR_CACHE = ('jedi/inference/cache.py', 'inference_state_method_generator_cache')
+PROTOCOL_CACHE = ('jedi/cache.py', 'signature_time_cache')
+# decorators that turn whatever iterable the function returns into an immutable container
+MATERIALISERS = {('jedi/inference/utils.py', 'to_list'): 'list(func(*args, **kwargs))',
+                 ('jedi/inference/utils.py', 'to_tuple'): 'tuple(func(*args, **kwargs))',
+                 ('jedi/inference/base_value.py', 'iterator_to_value_set'): 'ValueSet(func(*args, **kwargs))'}
+LAZY_BUILTINS = {'map', 'filter', 'zip', 'iter', 'reversed', 'enumerate', 'chain', 'itertools.chain',
+                 'chain.from_iterable', 'itertools.chain.from_iterable'}
+
+
+def _own_nodes(fn):
+    """nodes of a function body without those of nested functions / lambdas / classes"""
+    stack = list(fn.body)
+    while stack:
+        n = stack.pop()
+        if isinstance(n, (ast.FunctionDef, ast.AsyncFunctionDef, ast.Lambda, ast.ClassDef)):
+            continue
+        yield n
+        stack.extend(ast.iter_child_nodes(n))
+
+
+def _returns_one_shot(fn):
+    """is calling `fn` handing out an iterator that can be consumed once: a generator function, or a
+    function returning a generator expression / map / filter / zip / iter / chain object"""
+    for n in _own_nodes(fn):
+        if isinstance(n, (ast.Yield, ast.YieldFrom)):
+            return True
+        if isinstance(n, ast.Return) and n.value is not None:
+            v = n.value
+            if isinstance(v, ast.GeneratorExp):
+                return True
+            if isinstance(v, ast.Call) and u(v.func) in LAZY_BUILTINS:
+                return True
+    return False
+
+
+def _memo_layer(repo, g):
+    import os
+    inf_cache = Src(repo, 'jedi/inference/cache.py')
+    top_cache = Src(repo, 'jedi/cache.py')
+    utils = Src(repo, 'jedi/inference/utils.py')
+    base_value = Src(repo, 'jedi/inference/base_value.py')
+    srcs = {'jedi/inference/cache.py': inf_cache, 'jedi/cache.py': top_cache,
+            'jedi/inference/utils.py': utils, 'jedi/inference/base_value.py': base_value}
+
+    # --- which memo decorators exist: a new one must be classified before the table means anything
+    known = {'jedi/inference/cache.py': set(PLAIN_CACHES['jedi/inference/cache.py']) | {GENERATOR_CACHE[1]},
+             'jedi/cache.py': set(PLAIN_CACHES['jedi/cache.py']) | {PROTOCOL_CACHE[1], 'clear_time_caches'}}
+    for rel, names in known.items():
+        have = {n.name for n in srcs[rel].tree.body if isinstance(n, ast.FunctionDef)}
+        if have != names:
+            raise TieBroken('%s: the set of memo decorators changed' % rel,
+                            'expected %s, found %s' % (sorted(names), sorted(have)))
+
+    # --- how they store: the value returned by the function goes into the memo as it is
+    shapes = []
+
+    def stores_raw(src, dotted, call, store):
+        fn = src.find(dotted)
+        text = [u(n) for n in ast.walk(fn) if isinstance(n, (ast.Assign, ast.Return))]
+        if not any(t.split(' = ')[-1].startswith(call) for t in text if ' = ' in t) or not any(store in t for t in text):
+            raise TieBroken('%s: %s no longer stores the raw return value' % (src.rel, dotted),
+                            'looked for `... = %s...` and `%s` in %r' % (call, store, text))
+        shapes.append('%s:%s stores %s' % (src.rel, dotted.split('.')[0], store))
+    stores_raw(inf_cache, '_memoize_default.func.wrapper', 'function(obj, *args, **kwargs)', 'memo[key] = rv')
+    stores_raw(top_cache, 'memoize_method.wrapper', 'method(self, *args, **kwargs)', 'dct[key] = result')
+    stores_raw(top_cache, 'time_cache.decorator.wrapper', 'func(*args, **kwargs)', 'cache[key] = (time.time(), result)')
+    for name in PLAIN_CACHES['jedi/inference/cache.py'][1:]:
+        fn = inf_cache.find(name + '.decorator')
+        calls = [u(n.func) for n in ast.walk(fn) if isinstance(n, ast.Call)]
+        if '_memoize_default' not in calls:
+            raise TieBroken('jedi/inference/cache.py: %s is no longer built on _memoize_default' % name, repr(calls))
+    # the two that handle generators themselves
+    gen = inf_cache.find(GENERATOR_CACHE[1] + '.func.wrapper')
+    gtext = u(gen)
+    for needle in ('memo[key] = (actual_generator, cached_lst)', 'next_element = cached_lst[i]',
+                   'next_element = next(actual_generator, None)', 'yield next_element'):
+        if needle not in gtext:
+            raise TieBroken('jedi/inference/cache.py: inference_state_method_generator_cache no longer keeps '
+                            '(generator, list of what it produced) and replays the list', needle)
+    shapes.append('jedi/inference/cache.py:inference_state_method_generator_cache stores (actual_generator, cached_lst)')
+    sig = top_cache.find(PROTOCOL_CACHE[1] + '._temp.wrapper')
+    stext = u(sig)
+    for needle in ('key = next(generator)', 'value = next(generator)', 'dct[key] = (time.time() + time_add, value)'):
+        if needle not in stext:
+            raise TieBroken('jedi/cache.py: signature_time_cache no longer takes key and value out of the '
+                            'generator itself', needle)
+    shapes.append('jedi/cache.py:signature_time_cache stores next(generator)')
+    # the materialisers
+    for (rel, name), want in MATERIALISERS.items():
+        fn = srcs[rel].find(name + '.wrapper')
+        rets = [u(n.value) for n in ast.walk(fn) if isinstance(n, ast.Return)]
+        if rets != [want]:
+            raise TieBroken('%s: %s no longer returns %s' % (rel, name, want), repr(rets))
+        shapes.append('%s:%s returns %s' % (rel, name, want))
+    vs = base_value.find('ValueSet.__init__')
+    if 'self._set = frozenset(iterable)' not in [u(n) for n in vs.body]:
+        raise TieBroken('jedi/inference/base_value.py: ValueSet.__init__ no longer freezes its argument', u(vs))
+    shapes.append('jedi/inference/base_value.py:ValueSet.__init__ self._set = frozenset(iterable)')
+    g.define('memoStoreShapes', 'List String', lean_list(shapes),
+             'jedi/inference/cache.py, jedi/cache.py, jedi/inference/utils.py, jedi/inference/base_value.py: '
+             'what each memo decorator remembers / each materialiser returns')
+
+    # --- the table: every memoised function of jedi/
+    cache_names = set(sum(PLAIN_CACHES.values(), [])) | {GENERATOR_CACHE[1], PROTOCOL_CACHE[1]}
+    rows = []
+    for dp, dn, fs in sorted(os.walk(os.path.join(repo, 'jedi'))):
+        dn.sort()
+        if 'third_party' in dp.split(os.sep):
+            continue
+        for f in sorted(fs):
+            if not f.endswith('.py'):
+                continue
+            rel = os.path.relpath(os.path.join(dp, f), repo).replace(os.sep, '/')
+            src = Src(repo, rel)
+
+            def visit(node, prefix):
+                for n in ast.iter_child_nodes(node):
+                    if isinstance(n, (ast.FunctionDef, ast.AsyncFunctionDef)):
+                        decs = []
+                        for d in n.decorator_list:
+                            d = d.func if isinstance(d, ast.Call) else d
+                            decs.append(u(d).split('.')[-1])
+                        if any(d in cache_names for d in decs):
+                            rows.append(('%s:%s' % (rel, '.'.join(prefix + [n.name])), decs, _returns_one_shot(n)))
+                        visit(n, prefix + [n.name])
+                    elif isinstance(n, ast.ClassDef):
+                        visit(n, prefix + [n.name])
+                    else:
+                        visit(n, prefix)
+            visit(src.tree, [])
+    if len(rows) < 40:
+        raise TieBroken('only %d memoised functions found in jedi/: the walk is broken' % len(rows))
+    val = '[\n  ' + ',\n  '.join('(%s, %s, %s)' % (lean_list([r[0]])[1:-1], lean_list(r[1]), 'true' if r[2] else 'false')
+                                  for r in rows) + ']'
+    g.define('memoTable', 'List (String × List String × Bool)', val,
+             'every function in jedi/ under a memo decorator: (file:qualname, decorators outermost first, '
+             'does calling the undecorated function hand out a one-shot iterator)')
+    for s_, d in [(inf_cache, '_memoize_default'), (inf_cache, 'inference_state_method_generator_cache'),
+                  (top_cache, 'memoize_method'), (top_cache, 'signature_time_cache'), (top_cache, 'time_cache'),
+                  (utils, 'to_list'), (utils, 'to_tuple'), (base_value, 'iterator_to_value_set')]:
+        g.fp(s_, d)
+
 
 def generate(repo, g):
     helpers = Src(repo, 'jedi/api/helpers.py')
@@ -223,6 +374,8 @@ def generate(repo, g):
         raise TieBroken('syntax_tree.py: _limit_value_infers has no `maximum = N` / `maximum *= K`')
     g.define('nodeCap', 'Nat', str(cap), 'jedi/inference/syntax_tree.py:_limit_value_infers')
     g.define('nodeCapBuiltinFactor', 'Nat', str(factor), 'jedi/inference/syntax_tree.py:_limit_value_infers')
+
+    _memo_layer(repo, g)
 
     for s, d in [(helpers, 'sorted_definitions'), (classes, 'Name.__eq__'), (classes, 'Name.__hash__'),
                  (api, 'Script.infer'), (api, 'Script.goto'), (api, 'Script.get_references'),
